@@ -4,7 +4,8 @@ start position over several storage words (result base j = base pos+j of the con
 iterator tables with affine positions (KmerIter / KmerExtsIter: yield while pos <= len, roll by extend_right(bases[pos]),
 start at pos = K with the k-mer at 0 — hence exactly max(0, n-K+1) items in order; flanking extensions with the caller's
 boundary extensions only at the two ends); first/last/terminal accessors; byte containers (from_bytes of bytes[pos..pos+K]);
-the slice remap tables; and the bulk constructors' lockstep rules."""
+the slice remap tables; the bulk constructors' lockstep rules, and exactly on every k-mer type: from_bytes / from_ascii build the
+K bases given, kmers_from_bytes / kmers_from_ascii of n = K-1, K, K+2 bases yield max(0, n-K+1) items, item i = bases i..i+K."""
 from .. import lemmas, dt_seq, structural
 from . import common
 
@@ -22,3 +23,6 @@ def run(F, rep):
     dt_seq.accessor_tables(F, rep, "C13.4")
     dt_seq.slice_view_tables(F, rep, "C13.6")
     dt_seq.kmer_default_tables(F, rep, "C13.5")
+    lemmas.byte_container_lemmas(F, rep, "L-bytes")
+    for ty in common.kmer_type_names(F):
+        lemmas.kmer_default_lemmas(F, rep, ty, which={"from_bytes", "from_ascii", "bulk"}, rule="L-default")
